@@ -29,7 +29,7 @@ def auxOf (now a vt : α) : α := Num.pymax now a + vt
 /-- `vc[c] = vc[c] + vticks[c] * size * 8.0` -/
 def vcOf (v now vt : α) (size : Nat) : α := vcBase v now + vt * Num.ofNat size * Num.ofNat 8
 
-def put (c : VcCfg α) (st : VcSt α) (now : α) (p : SPkt) : Except SErr (VcSt α × α) :=
+def put (c : VcCfg α) (st : VcSt α) (now : α) (_total : Int) (p : SPkt) : Except SErr (VcSt α × α) :=
   match lookup c.flow2class p.flow with
   | none => .error (.raise "KeyError")
   | some cls =>
